@@ -61,6 +61,10 @@ func GenCatalogue() []GenLayout {
 	vfr2.CompactTrun = true
 	add("ok", "first segment 1 s at 50 fps, then 3 x 2 s at 25 fps; tfhd defaults only", "g_vfr_first", vfr2)
 
+	// a loop that is no whole number of seconds with stpp subtitles: the TTML offset of every odd wrap has a fraction
+	add("ok", "3 x 2.5 s video (7.5 s loop) with stpp subtitles on the same grid", "g_stpp_frac",
+		VideoRep("V300", 90000, 3000, UniformDurs(3, 225000)), StppRep("sub_en", 1000, UniformDurs(3, 2500)))
+
 	v10m := UniformDurs(4, 20000000)
 	add("ok", "timescale 10 MHz (Smooth-Streaming style), 4 x 2 s at 25 fps, $Time$: products with 1000 leave 64 bits after 58 years", "g_10mhz_tl",
 		tl(VideoRep("V1", 10000000, 400000, v10m)),
